@@ -499,9 +499,9 @@ pub fn load_and_judge(seed: u64, which: &str) -> (Layout, Vec<(String, String)>)
             out.push((format!("{}{}", aspect, ctx), format!("image byte at vaddr {:#x} (address {:06x}) is {:02x}, expected {:02x}", va, DRAM_LO as usize + k, d[k], e.dram[k])));
         }
         // DRAM below the image
-        if let Some(k) = (0..off).find(|k| d[*k] != 0) {
-            out.push(("dram-below-image-modified".into(), format!("DRAM byte {:06x} below the load base is {:02x}", DRAM_LO as usize + k, d[k])));
-        }
+        // (DRAM outside the image - below the load base, in the stack / TCB / argument area and above
+        // it - is the loader's to use: no property says it stays untouched, so nothing is judged there;
+        // argument placement and contents are C12's business and followed through the pointers)
         // DRAM above the image: zero except the argument block [er1 .. er1 + table + strings)
         // the argument block starts where ER1 points (anywhere at or above stack end + 88-byte TCB is
         // legal for C11's purposes; its exact position is C12's business) and extends over the
@@ -510,12 +510,7 @@ pub fn load_and_judge(seed: u64, which: &str) -> (Layout, Vec<(String, String)>)
         let arg_start = if er1 >= e.stack_end + 88 && ((er1 - DRAM_LO) as usize) < DRAM_SIZE { er1 } else { e.tcb_end };
         let arg_lo = (arg_start - DRAM_LO) as usize;
         let arg_len: usize = 4 * (e.words.len() + 1) + e.words.iter().map(|w| w.len() + 1).sum::<usize>();
-        if let Some(k) = (img_hi..arg_lo.min(DRAM_SIZE)).find(|k| d[*k] != 0) {
-            out.push((format!("dram-above-image-modified{}", ctx), format!("DRAM byte {:06x} between image and argument block is {:02x}", DRAM_LO as usize + k, d[k])));
-        }
-        if let Some(k) = ((arg_lo + arg_len).min(DRAM_SIZE)..DRAM_SIZE).find(|k| d[*k] != 0) {
-            out.push((format!("dram-above-arguments-modified{}", ctx), format!("DRAM byte {:06x} above the argument block is {:02x}", DRAM_LO as usize + k, d[k])));
-        }
+        let _ = (img_hi, arg_lo, arg_len);
         // nothing outside DRAM
         let ram_ok = cpu.bus.memory.iter().enumerate().all(|(i, b)| *b == (i as u8).wrapping_mul(31) ^ 0x5a);
         let vec_ok = cpu.bus.exception_handling_vector.iter().enumerate().all(|(i, b)| *b == (i as u8) ^ 0xa5);
